@@ -141,6 +141,29 @@ swapped-out page) occupies its slot but maps nothing: translation and the hardwa
 def absLookup (abs : List AbsMap) (va : Nat) : Option AbsMap :=
   (abs.find? (fun a => a.start ≤ va && va < a.start + a.size)).filter (fun a => a.flags &&& 1#64 != 0#64)
 
+/-- **The oracle's abstract state after a successful call** (`opcode`: 0..2 the `map_to` variants, 3 `unmap`,
+4 `update_flags`, 5..7 `set_flags_p4/p3/p2_entry`; `pageEff` the page a map acts on, `page` the page of the other
+calls, `flagsEff` the leaf flags with `HUGE_PAGE` for huge pages, `pflagsEff` the effective parent flags of a map,
+`flagsW` the flags argument of a parent-flag call, `path` the page's index path `parents ++ [leafIdx]`).
+`Properties/OracleSpec.lean` proves that this update and `absLookup` agree with the specification the history
+theorems are about (`C01HistoryDormant.absOk`, `expectedHw`). -/
+def absAfterOk (abs : List AbsMap) (opcode pageEff page sz frame : Nat) (flagsEff pflagsEff flagsW : Word)
+    (path : List Nat) : List AbsMap :=
+  if opcode ≤ 2 then
+    { start := pageEff, size := sz, frame := frame, flags := flagsEff,
+      prw := bitRW pflagsEff, pus := bitUS pflagsEff } :: abs
+  else if opcode == 3 then abs.filter (fun x => !(x.start == page && x.size == sz))
+  else if opcode == 4 then
+    abs.map (fun x => if x.start == page && x.size == sz then { x with flags := flagsEff } else x)
+  else if opcode == 5 || opcode == 6 || opcode == 7 then
+    -- the flags of a parent entry are *replaced*: the guaranteed rights of every page below it shrink
+    let pre := path.take (opcode - 4)
+    abs.map (fun x =>
+      if pre == [vaIdx4 x.start, vaIdx3 x.start, vaIdx2 x.start].take pre.length then
+        { x with prw := x.prw && bitRW flagsW, pus := x.pus && bitUS flagsW }
+      else x)
+  else abs
+
 /-- Is `va` below a parent entry that was switched off (see `MState.disabled`)? -/
 def underDisabled (disabled : List (List Nat)) (va : Nat) : Bool :=
   let idx := [vaIdx4 va, vaIdx3 va, vaIdx2 va]
@@ -442,20 +465,7 @@ def handleMapper : SHandler MState := fun _cfg op a impl st =>
         let flagsEff := if huge then w flags ||| 0x80#64 else w flags
         let abs' : List AbsMap :=
           if !isOk then st.abs
-          else if opcode ≤ 2 then
-            { start := pageEff, size := sz, frame := frame, flags := flagsEff,
-              prw := bitRW pflagsEff, pus := bitUS pflagsEff } :: st.abs
-          else if opcode == 3 then st.abs.filter (fun x => !(x.start == page && x.size == sz))
-          else if opcode == 4 then
-            st.abs.map (fun x => if x.start == page && x.size == sz then { x with flags := flagsEff } else x)
-          else if opcode == 5 || opcode == 6 || opcode == 7 then
-            -- the flags of a parent entry are *replaced*: the guaranteed rights of every page below it shrink
-            let pre := (parents ++ [leafIdx]).take (opcode - 4)
-            st.abs.map (fun x =>
-              if pre == [vaIdx4 x.start, vaIdx3 x.start, vaIdx2 x.start].take pre.length then
-                { x with prw := x.prw && bitRW (w flags), pus := x.pus && bitUS (w flags) }
-              else x)
-          else st.abs
+          else absAfterOk st.abs opcode pageEff page sz frame flagsEff pflagsEff (w flags) (parents ++ [leafIdx])
         let allocated : List Word := (allocs.take obs.allocs).filterMap id
         let preTables := tableFrames imPre p4
         -- recursive mapper: a parent entry created by this call (a link to a table allocated by it,
